@@ -21,7 +21,7 @@ use rayon::prelude::*;
 #[educe(Clone, PartialEq, Eq, Hash, Default)]
 pub struct SparsePolynomial<F: Field, T: Term> {
     /// The number of variables the polynomial supports
-    #[educe(PartialEq(ignore))]
+    #[educe(PartialEq(ignore), Hash(ignore))]
     pub num_vars: usize,
     /// List of each term along with its coefficient
     pub terms: Vec<(F, T)>,
